@@ -9,8 +9,8 @@ Model:   spec/Fields.tla: candidates by breadth-first search through embedded st
          TLC for every type graph of the universe that these rules select exactly the fields the
          implementation's sort-and-scan algorithm (also transcribed) selects, and that no two
          selected fields share a name.
-Replay:  each type is built with reflect.StructOf (embedding through the `embed` tag option, also
-         via pointers); Marshal of values whose leaves hold distinct contents gives names, order
+Replay:  each type is built with reflect.StructOf, once with the `embed` tag option and once with Go
+         embedding (anonymous fields), also via pointers; Marshal of values whose leaves hold distinct contents gives names, order
          and presence for the value classes full / zero / empty / nil embedded pointers, with and
          without OmitZeroStructFields; Unmarshal of {"probe": value} for 17 probe names x
          {MatchCaseInsensitiveNames} x {RejectUnknownMembers} shows which field received it, or
@@ -60,7 +60,7 @@ def run(ctx):
     ctx.sample({"type": "struct{ E1 struct{X int `json:\"A\"`} `json:\",embed\"`; E2 struct{A int} `json:\",embed\"` }",
                 "rule": "both at depth 2, only X explicitly named A: X wins", "marshal": '{"A":<X>}'})
     ctx.assumptions += [
-        "embedding is expressed with the documented `embed` tag option (reflect cannot build Go-embedded unnamed struct types with promoted fields in all cases); Go embedding implies the same option",
+        "every type graph is built twice: embedded structs as fields with the documented `embed` tag option, and as Go-embedded (anonymous) fields; the resolution rules are the same for both",
         "names are ASCII: folding of non-ASCII letters (unicode.SimpleFold) is not modelled",
         "type graphs are a random sample of the grammar (depth <= 3, <= 3 entries per struct, 5 colliding names) plus hand-written corner cases and two wide structs (70 and 130 fields)",
     ]
